@@ -55,6 +55,10 @@ def atomOkB (a : Pkgcore.C02.Atom) : Bool :=
   | none => true
   | some (_, v, _) => verOkB v
 
+/-- a written slot / sub-slot is never the empty string (`atom.__init__` raises `MalformedAtom`: "Empty slot targets
+aren't allowed"); an absent one is `None`.  Needed where the canonical form (`v or ""`) is read back. -/
+def slotPartsOkB (a : Pkgcore.C02.Atom) : Bool := a.slot != some [] && a.subslot != some []
+
 mutual
 /-- well-formed: every version node holds an operator set of the table, every atom a valid version -/
 def wf : Restr → Bool
